@@ -57,7 +57,7 @@ def run(name, f, old, new, props):
     env = dict(os.environ, VERIF_REPO=d)
     for pr in sorted(set(props + ["C01", "C02", "C03", "C04", "C06", "C07", "C09", "C15", "C18"])):
         try:
-            out = subprocess.run(["python3", "/tmp/corr_only.py", pr, "quick", "1"], env=env, capture_output=True, text=True, timeout=900).stdout
+            out = subprocess.run(["python3", os.path.join(os.path.dirname(os.path.abspath(__file__)), "corr_only.py"), pr, "quick", "1"], env=env, capture_output=True, text=True, timeout=900).stdout
         except subprocess.TimeoutExpired:
             res[pr] = "TIMEOUT"; continue
         line = [l for l in out.splitlines() if l.startswith(pr + " cases")]
